@@ -73,5 +73,14 @@ PROPS['C15'] = dict(engine='redirect', level='model_checking', foot=[], quick={}
                                  'Resolve is the worst case over concretisations, cross-checked against an independent Go implementation of WHATWG preprocessing on every enumerated string (a disagreement is exit 2)',
                                  'all strings go through the password flow in form and JSON mode; the otp/totp/sms/oauth2 flows get a seeded 30% sample of the strings'])
 
+PROPS['C19']['also'] = ['rules']
+PROPS['C07']['also'] = ['codecs']
+PROPS['C14']['also'] = ['codecs']
+PROPS['C07']['assumptions'] = PROPS['C07']['assumptions'] + ['codec clause: every PID over {a ; ,} up to length 3 logs in with remember-me and re-authenticates from the cookie alone (nonces are the library\'s random ones; those containing the separator are counted)']
+PROPS['C14']['assumptions'] = PROPS['C14']['assumptions'] + ['codec clause: providers over {a,b} (separator-free) x uids over {a ; ,} up to length 4 (quick) / 6 (thorough) through the real MakeOAuth2PID / ParseOAuth2PID']
+PROPS['C19']['assumptions'] = PROPS['C19']['assumptions'] + [
+    'policy clause: class strings over {upper, lower, digit, symbol, whitespace, two-byte lower} up to length 4 (quick) / 5 (thorough) '
+    'for 40 / 120 rule vectors (each bound alone, the shipped default, seeded random vectors), lengths in bytes']
+
 import components
-COMPONENT = {'mwtable': components.mwtable, 'clientstate': components.clientstate, 'redirect': components.redirect}
+COMPONENT = {'mwtable': components.mwtable, 'clientstate': components.clientstate, 'redirect': components.redirect, 'rules': components.rules, 'codecs': components.codecs}
